@@ -53,6 +53,8 @@ structure WSeg where
   seq : Nat := 0
   flags : Nat := 0
   data : List Nat := []
+  /-- ghost (never read by the model): offset of the entry's first byte in the stream of accepted bytes -/
+  gOff : Nat := 0
 deriving Repr, DecidableEq, Inhabited
 
 def WSeg.logicalLen (s : WSeg) : Nat :=
@@ -89,6 +91,12 @@ structure Snd where
   duplicate acknowledgements counted by `checkDuplicateAck` so far — the credits of the C05 window bound -/
   gAcked : Nat := 0
   gDup : Nat := 0
+  /-- ghosts of the C01 sender invariant: the sequence number of stream offset 0, every byte `Write` accepted so
+  far, and the (unbounded) stream offsets that `sndUna` and `sndNxt` stand for -/
+  gIss1 : Nat := 0
+  gW : List Nat := []
+  gUna : Nat := 0
+  gNxt : Nat := 0
 deriving Repr
 
 /-- the placeholder sender (used where a lookup has no endpoint): a fresh sender's congestion state -/
@@ -200,7 +208,8 @@ def sndEnd (s : Snd) : Nat := addS s.sndUna (s.sndWnd % M)
 def WSeg.assign (seg : WSeg) (sndNxt : Nat) : WSeg :=
   if seg.flags == 0 then { seg with seq := sndNxt, flags := fAck ||| fPsh } else seg
 
-def Snd.bumpNxt (s : Snd) (segEnd : Nat) : Snd := if lt s.sndNxt segEnd then { s with sndNxt := segEnd } else s
+def Snd.bumpNxt (s : Snd) (segEnd : Nat) : Snd :=
+  if lt s.sndNxt segEnd then { s with sndNxt := segEnd, gNxt := s.gNxt + sizeS s.sndNxt segEnd } else s
 
 /-- transmit a prepared write-list entry and advance `sndNxt` past it if it is new -/
 def emitAt (e : Ep) (seg : WSeg) (segEnd : Nat) : Ep × OutSeg :=
@@ -212,7 +221,8 @@ def Ep.setWriteNext (e : Ep) (i : Nat) : Ep := { e with snd := { e.snd with writ
 /-- split entry `i` when it is longer than what may be sent now: the rest becomes a new entry behind it -/
 def splitAt (wl : List WSeg) (i : Nat) (seg : WSeg) (available : Nat) : List WSeg × WSeg :=
   if seg.data.length > available then
-    let nSeg : WSeg := { seq := addS seg.seq available, flags := seg.flags, data := seg.data.drop available }
+    let nSeg : WSeg := { seq := addS seg.seq available, flags := seg.flags, data := seg.data.drop available,
+                         gOff := seg.gOff + available }
     let seg' := { seg with data := seg.data.take available }
     ((wl.set i seg').take (i + 1) ++ [nSeg] ++ wl.drop (i + 1), seg')
   else (wl.set i seg, seg)
@@ -299,7 +309,7 @@ def ackLoop : Nat → Snd → Nat → Snd
     | seg :: rest =>
       let datalen := seg.logicalLen
       if datalen > ackLeft then
-        { s with writeList := { seg with data := seg.data.drop ackLeft, seq := addS seg.seq ackLeft } :: rest }
+        { s with writeList := { seg with data := seg.data.drop ackLeft, seq := addS seg.seq ackLeft, gOff := seg.gOff + ackLeft } :: rest }
       else
         let wn := if s.writeNext == 0 then 0 else s.writeNext - 1
         ackLoop fuel { s with writeList := rest, writeNext := wn, outstanding := s.outstanding - 1, gAcked := s.gAcked + 1 } (ackLeft - datalen)
@@ -311,7 +321,7 @@ def updateRecentTimestamp (e : Ep) (tsVal maxSentAck segSeq : Nat) : Ep :=
 def ackAdvance (s : Snd) (ack : Nat) : Snd :=
   let s0 := { s with dupAck := 0, timerEnabled := false }
   let acked := sizeS s0.sndUna ack
-  let s1 := ackLoop (s0.writeList.length + 1) { s0 with sndUna := ack } acked
+  let s1 := ackLoop (s0.writeList.length + 1) { s0 with sndUna := ack, gUna := s0.gUna + acked } acked
   let s2 := if !s1.fr.active then
       let d := s0.outstanding - s1.outstanding
       renoUpdate s1 (if d < 0 then 0 else d.toNat)
@@ -511,7 +521,8 @@ def handleSegment (e : Ep) (seg : InSeg) : Ep × List OutSeg := handleSegments e
 /-- `handleWrite`: the accepted bytes go to the end of the write list as one entry -/
 def queueWrite (e : Ep) (v : List Nat) : Ep :=
   { e with sndBufUsed := e.sndBufUsed + v.length,
-           snd := { e.snd with writeList := e.snd.writeList ++ [{ data := v }],
+           snd := { e.snd with writeList := e.snd.writeList ++ [{ data := v, gOff := e.snd.gW.length }],
+                               gW := e.snd.gW ++ v,
                                sndNxtList := addS e.snd.sndNxtList v.length,
                                writeNext := if e.snd.writeNext ≥ e.snd.writeList.length then e.snd.writeList.length else e.snd.writeNext } }
 
@@ -552,7 +563,7 @@ def appRead (e : Ep) : Ep × Except String (List Nat) × List OutSeg :=
 /-- `Shutdown(write)`: the FIN is queued behind all data as an entry without payload -/
 def queueFin (e : Ep) : Ep :=
   { e with sndClosed := true,
-           snd := { e.snd with writeList := e.snd.writeList ++ [{ data := [] }],
+           snd := { e.snd with writeList := e.snd.writeList ++ [{ data := [], gOff := e.snd.gW.length }],
                                sndNxtList := addS e.snd.sndNxtList 1,
                                writeNext := if e.snd.writeNext ≥ e.snd.writeList.length then e.snd.writeList.length else e.snd.writeNext } }
 
@@ -574,7 +585,7 @@ def newEp (iss irs sndWnd mss : Nat) (sndWndScale : Int) (rcvWnd rcvWndScale mtu
   let mp := if m ≥ mss then mss else (if m == 0 then 1 else m)
   { snd := { sndUna := addS iss 1, sndNxt := addS iss 1, sndNxtList := addS iss 1, sndWnd := sndWnd,
              sndWndScale := if sndWndScale > 0 then sndWndScale.toNat else 0, maxPayload := mp,
-             maxSentAck := addS irs 1, fr := { last := iss } },
+             maxSentAck := addS irs 1, fr := { last := iss }, gIss1 := addS iss 1 },
     rcv := { rcvNxt := addS irs 1, rcvAcc := addS irs (rcvWnd + 1), rcvWndScale := rcvWndScale, pendingBufSize := rcvWnd },
     rcvBufSize := rcvBuf, sndBufSize := sndBuf, sendTSOk := ts, recentTS := recentTS, sackPermitted := sackPerm }
 
